@@ -25,6 +25,8 @@ func runC12(c *Ctx) {
 	ruleReverseGroups(c)
 	ruleDerivedSignatures(c)
 	ruleIsNilMeansNull(c, "R12.f")
+	// "counters reject non-integers and overflow" presupposes that the integer decoding itself does
+	ruleNumericAccessorsAs(c, "R12.g")
 	c.assume("primitive handler operations behave like Redis (the property grants this); ReverseBy's index arithmetic is in range only for len % step == 0, i.e. for member/score pairs")
 }
 
